@@ -1,7 +1,7 @@
 /-
-  Lemmas/CopyLemmas.lean — a value rebuilt by copy.deepcopy / a pickle round trip (`pickleV`) is
-  `==` the original whenever nothing is dropped (`keptV`) and rebuilt sets keep their elements
-  (`MemPreserving`); it is identical when they also keep their iteration order (`pickleV_id`).
+  Lemmas/CopyLemmas.lean — a value rebuilt by copy.deepcopy / a pickle round trip (`rebuildV`) is
+  `==` the original whenever rebuilt sets keep their elements (`MemPreserving`); it is identical
+  when they also keep their iteration order (`rebuildV_id`).
 -/
 import TypedpyModel.Lemmas.EqLemmas
 set_option linter.unusedVariables false
@@ -9,133 +9,57 @@ set_option linter.unusedSimpArgs false
 namespace Typedpy
 open PyVal (pyEq pyEqList subsetBy anyEqL dictSub attrsSub)
 
-/-! ### a rebuilt value (`copy.deepcopy`, pickle round trip) is `==` the original -/
+theorem rebuildVs_eq_map (S : SetOrder) : ∀ xs : List PyVal,
+    rebuildVs S xs = xs.map (rebuildV S)
+  | [] => by simp [rebuildVs]
+  | x :: xs => by simp [rebuildVs, rebuildVs_eq_map S xs]
 
-mutual
-/-- every attribute of every Structure inside the value is a declared field of its class
-    (nothing for `__getstate__` to drop) -/
-def keptV (T : ClassTbl) : PyVal → Bool
-  | .list xs => keptVs T xs
-  | .tuple xs => keptVs T xs
-  | .deque xs => keptVs T xs
-  | .set _ xs => keptVs T xs
-  | .dict kvs => keptKvs T kvs
-  | .inst c attrs => keptAttrs T (lookup c T) attrs
-  | .none => true
-  | .bool _ => true
-  | .int _ => true
-  | .float _ => true
-  | .dec _ => true
-  | .str _ => true
-  | .enumv _ _ => true
-  | .opaque _ => true
-termination_by structural v => v
-def keptVs (T : ClassTbl) : List PyVal → Bool
-  | [] => true
-  | x :: xs => keptV T x && keptVs T xs
-termination_by structural xs => xs
-def keptKvs (T : ClassTbl) : List (PyVal × PyVal) → Bool
-  | [] => true
-  | (k, v) :: rest => keptV T k && keptV T v && keptKvs T rest
-termination_by structural kvs => kvs
-def keptAttrs (T : ClassTbl) (names : Option (List String)) : List (String × PyVal) → Bool
-  | [] => true
-  | (k, v) :: rest => keepAttr names k && keptV T v && keptAttrs T names rest
-termination_by structural kvs => kvs
-end
+theorem rebuildKvs_eq_map (S : SetOrder) : ∀ kvs : List (PyVal × PyVal),
+    rebuildKvs S kvs = kvs.map (fun p => (rebuildV S p.1, rebuildV S p.2))
+  | [] => by simp [rebuildKvs]
+  | (k, v) :: rest => by simp [rebuildKvs, rebuildKvs_eq_map S rest]
 
-theorem keptVs_iff (T : ClassTbl) (xs : List PyVal) :
-    keptVs T xs = true ↔ ∀ x ∈ xs, keptV T x = true := by
-  induction xs with
-  | nil => simp [keptVs]
-  | cons h t ih => simp [keptVs, ih]
-
-theorem keptKvs_iff (T : ClassTbl) (kvs : List (PyVal × PyVal)) :
-    keptKvs T kvs = true ↔ ∀ p ∈ kvs, keptV T p.1 = true ∧ keptV T p.2 = true := by
-  induction kvs with
-  | nil => simp [keptKvs]
-  | cons h t ih => obtain ⟨k, v⟩ := h; simp [keptKvs, ih, and_assoc]
-
-theorem keptAttrs_iff (T : ClassTbl) (names : Option (List String)) (kvs : List (String × PyVal)) :
-    keptAttrs T names kvs = true ↔ ∀ p ∈ kvs, keepAttr names p.1 = true ∧ keptV T p.2 = true := by
-  induction kvs with
-  | nil => simp [keptAttrs]
-  | cons h t ih => obtain ⟨k, v⟩ := h; simp [keptAttrs, ih, and_assoc]
-
-theorem pickleVs_eq_map (T : ClassTbl) (S : SetOrder) : ∀ xs : List PyVal,
-    pickleVs T S xs = xs.map (pickleV T S)
-  | [] => by simp [pickleVs]
-  | x :: xs => by simp [pickleVs, pickleVs_eq_map T S xs]
-
-theorem pickleKvs_eq_map (T : ClassTbl) (S : SetOrder) : ∀ kvs : List (PyVal × PyVal),
-    pickleKvs T S kvs = kvs.map (fun p => (pickleV T S p.1, pickleV T S p.2))
-  | [] => by simp [pickleKvs]
-  | (k, v) :: rest => by simp [pickleKvs, pickleKvs_eq_map T S rest]
-
-theorem pickleAttrs_eq_map (T : ClassTbl) (S : SetOrder) (names : Option (List String)) :
-    ∀ kvs : List (String × PyVal), (∀ p ∈ kvs, keepAttr names p.1 = true) →
-    pickleAttrs T S names kvs = kvs.map (fun p => (p.1, pickleV T S p.2))
-  | [], _ => by simp [pickleAttrs]
-  | (k, v) :: rest, h => by
-    simp only [pickleAttrs, h (k, v) (by simp), if_true, List.map,
-      pickleAttrs_eq_map T S names rest (fun p hp => h p (by simp [hp]))]
+theorem rebuildAttrs_eq_map (S : SetOrder) : ∀ kvs : List (String × PyVal),
+    rebuildAttrs S kvs = kvs.map (fun p => (p.1, rebuildV S p.2))
+  | [] => by simp [rebuildAttrs]
+  | (k, v) :: rest => by simp [rebuildAttrs, rebuildAttrs_eq_map S rest]
 
 /-- the rebuilt set has the elements it was built from (what is assumed of `SetOrder`) -/
 def MemPreserving (S : SetOrder) : Prop := ∀ xs y, y ∈ S xs ↔ y ∈ xs
 
-theorem pyEq_pickleV (T : ClassTbl) (S : SetOrder) (hS : MemPreserving S) :
-    ∀ v : PyVal, keptV T v = true → pyEq v (pickleV T S v) = true := by
+/-- a rebuilt value is `==` the original, for every iteration order of the rebuilt sets -/
+theorem pyEq_rebuildV (S : SetOrder) (hS : MemPreserving S) :
+    ∀ v : PyVal, pyEq v (rebuildV S v) = true := by
   intro v
-  refine PyVal.induct (fun v => keptV T v = true → pyEq v (pickleV T S v) = true)
-    ?_ ?_ ?_ ?_ ?_ ?_ ?_ v
-  · intro v ha _
-    cases v <;> simp [PyVal.isAtom] at ha <;> simp only [pickleV] <;> exact pyEq_refl _
-  · intro a ih hk
-    simp only [keptV, keptVs_iff] at hk
-    simp only [pickleV, pyEq, pickleVs_eq_map]
-    exact pyEqList_map _ a (fun x hx => ih x hx (hk x hx))
-  · intro a ih hk
-    simp only [keptV, keptVs_iff] at hk
-    simp only [pickleV, pyEq, pickleVs_eq_map]
-    exact pyEqList_map _ a (fun x hx => ih x hx (hk x hx))
-  · intro a ih hk
-    simp only [keptV, keptVs_iff] at hk
-    simp only [pickleV, pyEq, pickleVs_eq_map]
-    exact pyEqList_map _ a (fun x hx => ih x hx (hk x hx))
-  · intro f a ih hk
-    simp only [keptV, keptVs_iff] at hk
-    simp only [pickleV, pyEq, pickleVs_eq_map, Bool.and_eq_true, List.all_eq_true, subsetBy_iff,
+  refine PyVal.induct (fun v => pyEq v (rebuildV S v) = true) ?_ ?_ ?_ ?_ ?_ ?_ ?_ v
+  · intro v ha
+    cases v <;> simp [PyVal.isAtom] at ha <;> simp only [rebuildV] <;> exact pyEq_refl _
+  · intro a ih
+    simp only [rebuildV, pyEq, rebuildVs_eq_map]
+    exact pyEqList_map _ a ih
+  · intro a ih
+    simp only [rebuildV, pyEq, rebuildVs_eq_map]
+    exact pyEqList_map _ a ih
+  · intro a ih
+    simp only [rebuildV, pyEq, rebuildVs_eq_map]
+    exact pyEqList_map _ a ih
+  · intro f a ih
+    simp only [rebuildV, pyEq, rebuildVs_eq_map, Bool.and_eq_true, List.all_eq_true, subsetBy_iff,
       anyEqL_iff]
-    refine ⟨fun x hx => ⟨pickleV T S x, (hS _ _).2 (List.mem_map.2 ⟨x, hx, rfl⟩), ih x hx (hk x hx)⟩,
+    refine ⟨fun x hx => ⟨rebuildV S x, (hS _ _).2 (List.mem_map.2 ⟨x, hx, rfl⟩), ih x hx⟩,
       fun y hy => ?_⟩
     obtain ⟨x, hx, rfl⟩ := List.mem_map.1 ((hS _ _).1 hy)
-    exact ⟨x, hx, ih x hx (hk x hx)⟩
-  · intro a ih hk
-    simp only [keptV, keptKvs_iff] at hk
-    simp only [pickleV, pyEq, pickleKvs_eq_map, List.length_map, beq_self_eq_true, Bool.true_and,
+    exact ⟨x, hx, ih x hx⟩
+  · intro a ih
+    simp only [rebuildV, pyEq, rebuildKvs_eq_map, List.length_map, beq_self_eq_true, Bool.true_and,
       dictSub_iff]
     intro p hp
-    exact ⟨_, List.mem_map.2 ⟨p, hp, rfl⟩, (ih p hp).1 (hk p hp).1, (ih p hp).2 (hk p hp).2⟩
-  · intro c a ih hk
-    simp only [keptV, keptAttrs_iff] at hk
-    simp only [pickleV, pyEq, pickleAttrs_eq_map T S _ a (fun p hp => (hk p hp).1), List.length_map,
-      beq_self_eq_true, Bool.true_and, attrsSub_iff]
-    intro p hp
-    exact ⟨_, List.mem_map.2 ⟨p, hp, rfl⟩, rfl, ih p hp (hk p hp).2⟩
-
-/-- with no class table nothing is ever dropped (`copy.deepcopy`) -/
-theorem keptV_nil : ∀ v : PyVal, keptV [] v = true := by
-  intro v
-  refine PyVal.induct (fun v => keptV [] v = true) ?_ ?_ ?_ ?_ ?_ ?_ ?_ v
-  · intro v ha; cases v <;> simp [PyVal.isAtom] at ha <;> rfl
-  · intro a ih; simp only [keptV, keptVs_iff]; exact ih
-  · intro a ih; simp only [keptV, keptVs_iff]; exact ih
-  · intro a ih; simp only [keptV, keptVs_iff]; exact ih
-  · intro f a ih; simp only [keptV, keptVs_iff]; exact ih
-  · intro a ih; simp only [keptV, keptKvs_iff]; exact ih
+    exact ⟨_, List.mem_map.2 ⟨p, hp, rfl⟩, (ih p hp).1, (ih p hp).2⟩
   · intro c a ih
-    simp only [keptV, keptAttrs_iff, lookup, keepAttr]
-    exact fun p hp => ⟨trivial, ih p hp⟩
+    simp only [rebuildV, pyEq, rebuildAttrs_eq_map, List.length_map, beq_self_eq_true, Bool.true_and,
+      attrsSub_iff]
+    intro p hp
+    exact ⟨_, List.mem_map.2 ⟨p, hp, rfl⟩, rfl, ih p hp⟩
 
 theorem lookup_map_val {α β} (f : α → β) (k : String) : ∀ l : List (String × α),
     lookup k (l.map (fun p => (p.1, f p.2))) = (lookup k l).map f
@@ -146,56 +70,40 @@ theorem lookup_map_val {α β} (f : α → β) (k : String) : ∀ l : List (Stri
     · rfl
     · exact lookup_map_val f k rest
 
-/-- a value whose sets are rebuilt in the same iteration order and whose Structures carry only
-    declared fields comes back identical -/
-theorem pickleV_id (T : ClassTbl) : ∀ v : PyVal, keptV T v = true → pickleV T id v = v := by
+/-- a value whose sets are rebuilt in the same iteration order comes back identical -/
+theorem rebuildV_id : ∀ v : PyVal, rebuildV id v = v := by
   intro v
-  have hl : ∀ a : List PyVal, (∀ x ∈ a, pickleV T id x = x) → pickleVs T id a = a := by
-    intro a h; rw [pickleVs_eq_map]
+  have hl : ∀ a : List PyVal, (∀ x ∈ a, rebuildV id x = x) → rebuildVs id a = a := by
+    intro a h; rw [rebuildVs_eq_map]
     induction a with
     | nil => rfl
     | cons x t ih => simp only [List.map, h x (by simp), ih (fun y hy => h y (by simp [hy]))]
-  refine PyVal.induct (fun v => keptV T v = true → pickleV T id v = v) ?_ ?_ ?_ ?_ ?_ ?_ ?_ v
-  · intro v ha _; cases v <;> simp [PyVal.isAtom] at ha <;> rfl
-  · intro a ih hk
-    simp only [keptV, keptVs_iff] at hk
-    simp only [pickleV, hl a (fun x hx => ih x hx (hk x hx))]
-  · intro a ih hk
-    simp only [keptV, keptVs_iff] at hk
-    simp only [pickleV, hl a (fun x hx => ih x hx (hk x hx))]
-  · intro a ih hk
-    simp only [keptV, keptVs_iff] at hk
-    simp only [pickleV, hl a (fun x hx => ih x hx (hk x hx))]
-  · intro f a ih hk
-    simp only [keptV, keptVs_iff] at hk
-    simp only [pickleV, hl a (fun x hx => ih x hx (hk x hx)), id]
-  · intro a ih hk
-    simp only [keptV, keptKvs_iff] at hk
-    simp only [pickleV, pickleKvs_eq_map]
+  refine PyVal.induct (fun v => rebuildV id v = v) ?_ ?_ ?_ ?_ ?_ ?_ ?_ v
+  · intro v ha; cases v <;> simp [PyVal.isAtom] at ha <;> rfl
+  · intro a ih; simp only [rebuildV, hl a ih]
+  · intro a ih; simp only [rebuildV, hl a ih]
+  · intro a ih; simp only [rebuildV, hl a ih]
+  · intro f a ih; simp only [rebuildV, hl a ih, id]
+  · intro a ih
+    simp only [rebuildV, rebuildKvs_eq_map]
     congr 1
     induction a with
     | nil => rfl
     | cons p t iht =>
-      simp only [List.map, (ih p (by simp)).1 (hk p (by simp)).1, (ih p (by simp)).2 (hk p (by simp)).2,
-        iht (fun q hq => ih q (by simp [hq])) (fun q hq => hk q (by simp [hq]))]
-  · intro c a ih hk
-    simp only [keptV, keptAttrs_iff] at hk
-    simp only [pickleV]
-    rw [pickleAttrs_eq_map T id _ a (fun p hp => (hk p hp).1)]
+      simp only [List.map, (ih p (by simp)).1, (ih p (by simp)).2,
+        iht (fun q hq => ih q (by simp [hq]))]
+  · intro c a ih
+    simp only [rebuildV, rebuildAttrs_eq_map]
     congr 1
     induction a with
     | nil => rfl
     | cons p t iht =>
-      simp only [List.map, ih p (by simp) (hk p (by simp)).2,
-        iht (fun q hq => ih q (by simp [hq])) (fun q hq => hk q (by simp [hq]))]
+      simp only [List.map, ih p (by simp), iht (fun q hq => ih q (by simp [hq]))]
 
-theorem pickleAttrs_id (T : ClassTbl) (names : Option (List String)) (a : List (String × PyVal))
-    (hk : keptAttrs T names a = true) : pickleAttrs T id names a = a := by
-  rw [keptAttrs_iff] at hk
-  rw [pickleAttrs_eq_map T id names a (fun p hp => (hk p hp).1)]
+theorem rebuildAttrs_id (a : List (String × PyVal)) : rebuildAttrs id a = a := by
+  rw [rebuildAttrs_eq_map]
   induction a with
   | nil => rfl
-  | cons p t iht =>
-    simp only [List.map, pickleV_id T p.2 (hk p (by simp)).2, iht (fun q hq => hk q (by simp [hq]))]
+  | cons p t iht => simp only [List.map, rebuildV_id p.2, iht]
 
 end Typedpy
